@@ -77,33 +77,59 @@ def parseAccOps (s : String) : List Spec.Acc :=
 def renderAcc (rs : List Spec.AccRes) (rem : Bytes) : String :=
   ";".intercalate (rs.map (fun r => match r with | some v => "+" ++ hexOf v | none => "-") ++ ["rem=" ++ hexOf rem])
 
-/-- C16: run a forced schedule on the abstract shutdown protocol -/
+/-- C16: run a forced schedule on the abstract shutdown protocol.  `wP`/`wG` hold an admission
+    inside its critical section: by mutual exclusion (pinned in Conformance/Close.lean) a closer
+    started meanwhile cannot enter its own (`cS:blk`) and completes as soon as the admission is let
+    go; the admission itself is the one atomic step of `Conc.step`, taken at `wG`. -/
 def runCloseModel (c : CaseIn) : String :=
   let k := (get c.kv "closers").toNat?.getD 0
   let cmds := if (get c.kv "cmds").isEmpty then [] else (get c.kv "cmds").splitOn ","
   let acts := ((get c.kv "sched").splitOn ",").filter (· ≠ "")
-  let rec go (acts : List String) (s : Conc.St) (acc : List String) : List String :=
+  let rec go (acts : List String) (s : Conc.St) (held : List Nat) (blocked : List Nat) (acc : List String) : List String :=
     match acts with
     | [] => acc.reverse
     | a :: r =>
       let idx := ((a.drop 2).toString.toNat?).getD 0
       let kind := (a.take 2).toString
       if kind = "cS" then
-        go r ((Conc.step (.closer idx) s).getD s) (a :: acc)
+        if held.isEmpty then go r ((Conc.step (.closer idx) s).getD s) held blocked (a :: acc)
+        else go r s held (blocked ++ [idx]) ((a ++ ":blk") :: acc)
+      else if kind = "cT" then
+        -- try to return: possible only from the wait with no admitted command left
+        if blocked.contains idx then go r s held blocked ((a ++ ":no") :: acc)
+        else
+          let s1 := (Conc.step .helper s).getD s
+          match s1.closers[idx]? with
+          | some .returned => go r s1 held blocked ((a ++ ":ret") :: acc)
+          | some .waiting =>
+            (match Conc.step (.closer idx) s1 with
+             | some s2 => go r s2 held blocked ((a ++ ":ret") :: acc)
+             | none => go r s1 held blocked ((a ++ ":no") :: acc))
+          | _ => go r s1 held blocked ((a ++ ":no") :: acc)
       else if kind = "cR" then
         let s1 := (Conc.step .helper s).getD s      -- the helper goroutine runs freely once the channel is closed
         match Conc.step (.closer idx) s1 with
-        | some s2 => go r s2 ((a ++ ":ret") :: acc)
-        | none => go r s1 ((a ++ ":hang") :: acc)
+        | some s2 => go r s2 held blocked ((a ++ ":ret") :: acc)
+        | none => go r s1 held blocked ((a ++ ":hang") :: acc)
       else if kind = "wA" then
         match Conc.step (.worker idx) s with
         | some s2 =>
           let res := if s2.workers[idx]? = some .running then "adm" else "ref"
-          go r s2 ((a ++ ":" ++ res) :: acc)
-        | none => go r s ((a ++ ":lost") :: acc)
+          go r s2 held blocked ((a ++ ":" ++ res) :: acc)
+        | none => go r s held blocked ((a ++ ":lost") :: acc)
+      else if kind = "wP" then
+        -- the closing check: refused at once when closing is set, otherwise held before wg.Add
+        if s.closing then go r ((Conc.step (.worker idx) s).getD s) held blocked ((a ++ ":ref") :: acc)
+        else go r s (idx :: held) blocked ((a ++ ":chk") :: acc)
+      else if kind = "wG" then
+        let s1 := (Conc.step (.worker idx) s).getD s
+        let res := if s1.workers[idx]? = some .running then "adm" else "ref"
+        -- the closers that were waiting for the mutex run their critical sections now
+        let s2 := blocked.foldl (fun st i => (Conc.step (.closer i) st).getD st) s1
+        go r s2 (held.filter (· ≠ idx)) [] ((a ++ ":" ++ res) :: acc)
       else
-        go r ((Conc.step (.worker idx) s).getD s) (a :: acc)
-  ";".intercalate (go acts (Conc.init k cmds.length) [] ++ ["serve=nil", "viol=-"])
+        go r ((Conc.step (.worker idx) s).getD s) held blocked (a :: acc)
+  ";".intercalate (go acts (Conc.init k cmds.length) [] [] [] ++ ["serve=nil", "viol=-"])
 
 /-- C18: the heap model on a sequence of reads / skips / accessor calls -/
 def runHeapModel (c : CaseIn) : String :=
